@@ -11,6 +11,10 @@ extra.update({"C01-4": ["C08"], "C02-4": ["C08", "C11"], "C03-3": ["C08", "C09"]
               "C08-4": ["C09", "C11"], "C09-3": ["C08"], "C09-4": ["C08", "C11"], "C10-3": ["C05", "C13"], "C10-4": ["C05", "C13"], "C11-3": ["C06"],
               "C11-4": ["C02", "C15"], "C12-4": ["C07"], "C13-3": ["C17"], "C13-4": ["C05"], "C14-4": ["C11"], "C15-3": ["C02"], "C16-3": ["C08", "C17"],
               "C17-3": ["C09"], "C17-4": ["C06", "C16"], "C18-3": ["C11"], "C18-4": ["C08"], "C19-3": ["C05"], "C19-4": ["C14"], "C20-4": ["C11"]})
+# round 4
+extra.update({"C01-7": ["C02"], "C02-7": ["C08"], "C02-8": ["C01", "C05"], "C03-8": ["C08", "C09"], "C04-8": ["C09"], "C05-8": ["C10"], "C06-8": ["C17"],
+              "C07-7": ["C12"], "C08-7": ["C11"], "C08-8": ["C17"], "C09-7": ["C08", "C11"], "C10-7": ["C03", "C05"], "C11-8": ["C08", "C01"],
+              "C12-8": ["C07"], "C13-8": ["C20"], "C17-8": ["C06"], "C19-8": ["C11"]})
 only = sys.argv[1:]
 rows = []
 for d in sorted(glob.glob(V + "/seeded/C*-*")):
